@@ -64,8 +64,11 @@ ShapeGrid(shape, n) ==
       [] shape = "desc"    -> [i \in 1 .. n |-> 1 - i]
       [] shape = "const"   -> [i \in 1 .. n |-> 0]
       [] shape = "nonmono" -> [i \in 1 .. n |-> IF i = n THEN n - 3 ELSE i - 1]
+      [] shape = "ascnu"   -> [i \in 1 .. n |-> ((i - 1) * i) \div 2]            \* strictly increasing, non-uniform: 0 1 3 6 10
+      [] shape = "descnu"  -> [i \in 1 .. n |-> 0 - (((i - 1) * i) \div 2)]
 
 Grid(c) == ShapeGrid(c.grid, c.n)
+IsAsc(c) == c.grid \in {"asc", "ascnu"}
 
 Flow(c, s, k) == (s + k) % c.M
 Scale(sg, g) == [i \in DOMAIN g |-> sg * g[i]]
@@ -206,7 +209,7 @@ Correct(c, o) == ~o.raised /\ TimesOK(c, o) /\ StatesOK(c, o)
 
 \* "Propagating with direction -1 for a duration t yields the state the flow had at time -t"
 BackwardMeansInverseFlow ==
-    (Done /\ cfg.entry # "integrate" /\ cfg.forward = -1 /\ cfg.grid = "asc" /\ Supported(cfg)) =>
+    (Done /\ cfg.entry # "integrate" /\ cfg.forward = -1 /\ IsAsc(cfg) /\ Supported(cfg)) =>
         /\ ~out.raised
         /\ \A i \in 1 .. cfg.n : out.pa[i] = Flow(cfg, cfg.start, -(i - 1))
         /\ (cfg.two /\ cfg.flip # "block") => \A i \in 1 .. cfg.n : out.pb[i] = Flow(cfg, cfg.start, -(i - 1))
@@ -215,14 +218,14 @@ BackwardMeansInverseFlow ==
 \* "a forward propagation followed by a backward one of equal length returns to the starting
 \*  state": backward runs that start where the forward twin ended (start = n-1) end at 0
 RoundTrip ==
-    (Done /\ cfg.entry # "integrate" /\ cfg.forward = -1 /\ cfg.grid = "asc" /\ Supported(cfg)
+    (Done /\ cfg.entry # "integrate" /\ cfg.forward = -1 /\ IsAsc(cfg) /\ Supported(cfg)
           /\ cfg.start = cfg.n - 1) =>
         /\ ~out.raised
         /\ out.pa[cfg.n] = 0
 
 \* "the returned time stamps are signed consistently (non-positive and decreasing)"
 TimesSigned ==
-    (Done /\ cfg.entry # "integrate" /\ cfg.grid = "asc" /\ ~out.raised) =>
+    (Done /\ cfg.entry # "integrate" /\ IsAsc(cfg) /\ ~out.raised) =>
         /\ Len(out.times) = cfg.n
         /\ out.times[1] = 0
         /\ \A i \in 1 .. (cfg.n - 1) : cfg.forward * out.times[i + 1] > cfg.forward * out.times[i]
@@ -236,16 +239,16 @@ FirstSampleInitial ==
 
 \* "samples are returned exactly at the requested times"
 SamplesAtRequestedTimes ==
-    (Done /\ ~out.raised /\ cfg.grid = "asc") => Correct(cfg, out)
+    (Done /\ ~out.raised /\ IsAsc(cfg)) => Correct(cfg, out)
 
 \* "given a strictly decreasing time grid either integrate it correctly or reject it,
 \*  never returning a silently wrong trajectory"  (also: constant and non-monotone grids)
 DescendingGridCorrectOrRejected ==
-    (Done /\ cfg.grid # "asc") => (out.raised \/ Correct(cfg, out))
+    (Done /\ ~IsAsc(cfg)) => (out.raised \/ Correct(cfg, out))
 
 \* a well-formed request is served ("for every method", "all systems")
 WellFormedRequestServed ==
-    (Done /\ cfg.grid = "asc" /\ Supported(cfg)) => ~out.raised
+    (Done /\ IsAsc(cfg) /\ Supported(cfg)) => ~out.raised
 
 TypeOK ==
     /\ stage \in {"request", "wrapped", "called", "iret", "done"}
